@@ -106,7 +106,11 @@ func (t *Ticket) Unmarshal(b []byte) error {
 
 // Marshal the Ticket.
 func (t *Ticket) Marshal() ([]byte, error) {
-	b, err := asn1.Marshal(*t)
+	// The decrypted part is not a component of the Ticket ASN.1 type: it only travels encrypted in
+	// EncPart and must not be serialised in the clear when the ticket has been decrypted.
+	m := *t
+	m.DecryptedEncPart = EncTicketPart{}
+	b, err := asn1.Marshal(m)
 	if err != nil {
 		return nil, err
 	}
